@@ -317,6 +317,20 @@ fn editor_prefixes() -> Vec<Model> {
     out.push(m.clone());
     m.loads.push(ld);
     out.push(m.clone());
+    // the same steps in a project whose general data (building-wide ventilation flow, blower-door result,
+    // perimeter insulation) were filled in first
+    let with_meta: Vec<Model> = out
+        .iter()
+        .map(|x| {
+            let mut y = x.clone();
+            y.meta.global_ventilation_l_s = Some(30.0);
+            y.meta.n50_test_ach = Some(4.0);
+            y.meta.d_perim_insulation = 0.5;
+            y.meta.rn_perim_insulation = 1.0;
+            y
+        })
+        .collect();
+    out.extend(with_meta);
     out
 }
 
@@ -343,6 +357,11 @@ pub fn run(a: &Args) -> Batch {
     let cap = if a.thorough { 12 } else { 4 };
     let mut texts: Vec<String> = vec![];
     let mut meta: Vec<(String, String)> = vec![]; // (base, edits)
+    // the editor-style prefixes first: they are few and must always reach the Coq cases
+    for (k, m) in editor_prefixes().into_iter().enumerate() {
+        texts.push(serde_json::to_string(&m).unwrap());
+        meta.push(("editor".into(), format!("prefix {}", k)));
+    }
     for (name, v) in &bases {
         let edits = enumerate(v, cap);
         let nsingle = if a.thorough { edits.len() } else { edits.len().min(a.n * 6) };
@@ -373,10 +392,6 @@ pub fn run(a: &Args) -> Batch {
             texts.push(x.to_string());
             meta.push((name.clone(), desc.join(" ; ")));
         }
-    }
-    for (k, m) in editor_prefixes().into_iter().enumerate() {
-        texts.push(serde_json::to_string(&m).unwrap());
-        meta.push(("editor".into(), format!("prefix {}", k)));
     }
     let outcomes = run_models(&texts, 20);
     let mut findings = vec![];
